@@ -7,7 +7,7 @@ CONSTANTS KeyOrd <- KeyAB
           Allow = {}
           GenFlush = {1, 2, 3, 4}
           WarmReads = TRUE
-          InitCfgs <- FewCfgs
+          InitCfgs <- GenInit
           WriteCfgs <- TwoWrite
           MaxBegin = 2
           MaxRead = 2
